@@ -31,7 +31,7 @@ CONSTANTS Alphabet,    \* characters that may be appended one at a time
 IntAlphabet   == {"0", "1", "7", "9", "a", "f", "x", "o", "b", "_", "X", "O", "B"}
 FloatAlphabet == {"0", "1", "5", "9", "_", ".", "e", "E", "+", "-", "j", "J"}
 BigAlphabet   == {"0", "1", "9", "x", "o", "b", "X", "_"}
-QuickAlphabet == IntAlphabet \cup FloatAlphabet
+QuickAlphabet == IntAlphabet \cup {".", "e", "E", "+", "-", "j", "J"}
 NoBlocks      == {}
 BigBlocks     == { <<"f", "f", "f", "f", "_", "F", "F", "F", "F">>, <<"0", "0", "0", "0", "0", "0", "0">>,
                    <<"1", "2", "3", "4", "5", "6", "7">>, <<"9", "9", "9", "9", "9", "9", "9", "9", "9">>,
